@@ -191,6 +191,9 @@ def _oracle(runner, proc, result, case):
     if model['waits']:
         result.counters['probe:wait_resumed_with_value'] += 1
     for event in events:
+        if event[0] == 'pause_at_resume':
+            result.counters['probe:resume_right_behind_pause'] += 1
+            continue
         if event[0] == 'crash' and event[2] == 'lagged':
             result.counters['probe:instance_ran_on_after_checkpoint'] += 1
             continue
